@@ -189,6 +189,13 @@ macro_rules! piggyback {
     }};
 }
 
+/// C01's construction case under C19's monitor only (panics are caught by the driver, C01's own verdicts dropped).
+pub fn exec_c01_monitor(case: &super::c01::Case, log: &mut CaseLog) {
+    let mut tmp = CaseLog::default();
+    super::c01::exec(case, &mut tmp);
+    log.evals += tmp.evals.max(1);
+}
+
 /// C01's batch-construction cases with coordinates pushed to extreme (still finite) magnitudes:
 /// every point, or a generated subset, is multiplied by 2^k with |k| up to 1000, so that squared
 /// distances and determinants overflow or underflow inside the construction paths.
